@@ -546,7 +546,8 @@ def translate(repo: Path) -> str:
 
 # ------------------------------------------------------------------------------------------ detector-level models
 # simple_adc / sar_adc / sar_adc_with_noise: which detector attribute feeds which argument of the converter.
-# Accepted statement shapes (anything else fails closed):
+# The body is first normalised (`_normalised`: helper inlining, alias substitution, guard forms, literal loops unrolled).
+# Accepted statement shapes after that (anything else fails closed):
 #   name [: T] = <expr>                      (binds a name to a source)
 #   a, b = detector.characteristics.adc_voltage_range        (`_` allowed)
 #   if data_type: <np.dtype(data_type) with guards> else: name = get_dtype(<bits>)      (simple_adc only)
